@@ -141,7 +141,17 @@ fn record(t: &AbiType, index: U256, offset: usize, src: &str) -> J {
     let r = guarded(|| {
         let text = serde_json::to_string(&slot).map_err(|e| e.to_string())?;
         let back: Result<StorageSlot, _> = serde_json::from_str(&text);
-        Ok::<_, String>((text, back.map_err(|e| e.to_string())))
+        // the other ways JSON reaches a reader: through a reader over bytes, and through a value tree
+        let back = back.map_err(|e| e.to_string()).and_then(|b| {
+            let via_reader: StorageSlot = serde_json::from_reader(text.as_bytes()).map_err(|e| format!("from_reader: {e}"))?;
+            let tree = serde_json::to_value(&slot).map_err(|e| format!("to_value: {e}"))?;
+            let via_value: StorageSlot = serde_json::from_value(tree).map_err(|e| format!("from_value: {e}"))?;
+            if via_reader != b || via_value != b {
+                return Err("the JSON entry points disagree on what the text denotes".to_string());
+            }
+            Ok(b)
+        });
+        Ok::<_, String>((text, back))
     });
     let idx = index.to_be_bytes().to_vec();
     let mut rec = json!({"ev": "json", "src": src, "type": full_json(t), "idx": idx, "offset": offset});
